@@ -41,6 +41,14 @@ def _model(name):
         kappa = (MotifChange("A", "G") | MotifChange("C", "T")).aliased("kappa")
         P = {"kappa": [kappa], "none": []}[preds]
         return SM.TimeReversibleDinucleotide(predicates=P, mprob_model=mprob, name=name, model_gaps=False)
+    if name.startswith("codon:") or name.startswith("trinuc:"):
+        kind, mprob = name.split(":")
+        from cogent3.evolve.predicate import MotifChange
+
+        kappa = (MotifChange("A", "G") | MotifChange("C", "T")).aliased("kappa")
+        if kind == "codon":
+            return SM.TimeReversibleCodon(predicates=[kappa], mprob_model=mprob, name=name, model_gaps=False)
+        return SM.TimeReversibleTrinucleotide(predicates=[kappa], mprob_model=mprob, name=name, model_gaps=False)
     raise KeyError(name)
 
 
@@ -262,6 +270,52 @@ def _replay_Q(model, cex):
     return {"status": "reproduced" if bad else "not_reproduced", "detail": f"{ob} on floats: violated={bad}"}
 
 
+def mk_word_probs(model, _replay=None):
+    """the word (motif) probabilities every Q is calibrated against are a probability distribution over the model's alphabet,
+    for word alphabets that are NOT a full product (sense codons) as well as full k-mer alphabets"""
+    t0 = time.time()
+    sm = _model(model)
+    mpm = sm.mprob_model
+    if _replay is not None:
+        in_alpha = [str(m) for m in mpm.get_input_alphabet()]
+        if type(mpm).__name__ == "PosnSpecificMonomerProbModel":
+            arg = [numpy.array([float(_replay[f"pi{pos}_{m}"]) for m in in_alpha]) for pos in range(mpm.word_length)]
+        else:
+            arg = numpy.array([float(_replay[f"pi_{m}"]) for m in in_alpha])
+        w = mpm.calc_word_probs(arg)
+        bad = abs(w.sum() - 1) > 1e-9 or w.min() <= 0
+        return {"status": "reproduced" if bad else "not_reproduced", "detail": f"sum of word probs = {w.sum()!r} over {len(w)} words"}
+    holder = {}
+
+    def run():
+        word_probs, mprobs_matrix, params, assumptions, allvars, arg = _symbolic_inputs(sm)
+        holder.update(allvars=allvars)
+        return word_probs, mprobs_matrix
+
+    A = _assumptions_only(sm)
+    paths, stats = psx.explore(run, A)
+    if len(paths) != 1 or paths[0].exc is not None:
+        return {"status": "inconclusive", "detail": f"forked or raised: {paths[0].exc!r}"}
+    w = [psx.term(x) for x in paths[0].result[0]]
+    if not W.reach("end"):
+        return {"status": "cex", "cex": {"twin": f"{len(w)} words"}}
+    nq = 0
+    claims = [("sum_to_one", z3.Sum(w) == 1), ("positive", z3.And(*[x > 0 for x in w]))]
+    cd = psx.common_denominator_form(w)
+    if cd is not None:
+        # every word probability is num_i / den with one shared denominator: state the same claim without division
+        nums, den = cd
+        claims = [("denominator_positive", den > 0), ("numerators_sum_to_denominator", z3.Sum(nums) == den), ("numerators_positive", z3.And(*[x > 0 for x in nums]))]
+    for nm, claim in claims:
+        r, m, dt = psx.check_valid(paths[0].assertions, claim, timeout_ms=600000)
+        nq += 1
+        if r == "sat":
+            return {"status": "cex", "cex": dict({k: psx.model_float(m, v) for k, v in holder["allvars"].items()}, claim=nm), "queries": nq}
+        if r != "unsat":
+            return {"status": "inconclusive", "detail": f"{nm}: z3 {r} after {dt:.0f}s"}
+    return {"status": "holds", "paths": 1, "queries": nq, "detail": f"{len(w)} words, input alphabet {len(list(mpm.get_input_alphabet()))}", "solver_s": round(time.time() - t0, 2)}
+
+
 # ------------------------------------------------------------------ rate-class multipliers
 def mk_rate_classes(kind, nbins, _replay=None):
     from cogent3.recalculation import definition as D
@@ -390,7 +444,7 @@ ENCODED = [
 ]
 BOUNDS = {
     "quick": ["nucleotide models JC69 F81 K80 HKY85 TN93 GTR GN ssGN (4 states); dinucleotide (16 states) with mprob_model=monomer (optional obligation)",
-              "all motif probabilities (>0, sum 1) and all rate parameters (>0): unbounded reals", "rate classes: 2..4 bins", "per-query z3 budget 300 s"],
+              "all motif probabilities (>0, sum 1) and all rate parameters (>0): unbounded reals", "word probabilities of codon (61 sense codons) and trinucleotide (64) alphabets under all four motif-probability models", "rate classes: 2..4 bins", "per-query z3 budget 300 s"],
     "thorough": ["as quick + dinucleotide with mprob_model in {tuple, monomers, conditional} as OPTIONAL obligations (attempted under the per-query cap; reported, not counted, when z3 gives up)", "all motif probabilities and rate parameters: unbounded reals", "rate classes: 2..5 bins", "per-query z3 budget 300 s"],
 }
 ASSUMPTIONS = [
@@ -414,6 +468,9 @@ def obligations(tier):
     dinuc = ["dinuc:kappa:monomer"] + (["dinuc:kappa:tuple", "dinuc:kappa:monomers", "dinuc:kappa:conditional", "dinuc:none:tuple"] if T else [])
     for m in dinuc:
         obs.append(Ob(f"Q/{m}", __name__, "mk_Q", {"model": m}, kind="direct", timeout=2400, group="Q", optional=True))
+    for kind in ("codon", "trinuc"):
+        for mprob in ("monomer", "monomers", "conditional", "tuple"):
+            obs.append(Ob(f"word_probs/{kind}:{mprob}", __name__, "mk_word_probs", {"model": f"{kind}:{mprob}"}, kind="direct", timeout=1200, group="wordprobs"))
     for kind in ("weighted", "monotonic", "gamma"):
         for n in ([2, 3, 4, 5] if T else [2, 3, 4]):
             obs.append(Ob(f"rate_classes/{kind}/n{n}", __name__, "mk_rate_classes", {"kind": kind, "nbins": n}, kind="direct", timeout=300, group="bins"))
